@@ -280,7 +280,11 @@ func (fs *FS) Rename(oldname, newname string) error {
 		if err != nil {
 			_ = txn.Abort()
 		} else {
-			_, err = txn.Commit(context.Background())
+			var results []OpResult
+			results, err = txn.Commit(context.Background())
+			if err == nil {
+				err = firstOpErr(results)
+			}
 		}
 		return err
 	}
